@@ -525,6 +525,12 @@ def emissions(ctx, b):
                 e = I.elem(a[0])
                 rr = ctx.opa.run(a[1][1], [a[1], e])
                 scan_calls([cc for _, cc in rr.call_sites()], via='for_each/')
+            elif c['t'].get('local') and callee_of(c['t']) in ctx.facts.bodies and len(via) < 60:
+                # a crate helper that emits on behalf of the task: look inside with the caller's argument terms
+                cal = ctx.facts.bodies[callee_of(c['t'])]
+                if ctx.opa.inlinable(cal) and any(x[0] in ('phi', 'mut') or (x[0] == 'call' and tcallee(x).split('::')[-1] in ('new', 'with_capacity')) for x in (base_strip(y) for y in a[:1])):
+                    rr = ctx.opa.run(cal.name, list(a))
+                    scan_calls([cc for _, cc in rr.call_sites()], via=via + key_of(cal).split('::')[-1] + '/')
     scan_calls([c for _, c in r.call_sites()])
     return r, outl
 
@@ -593,6 +599,24 @@ def returned_buffer_bases(ctx, b, r):
     return {base_of(r, alt) for alt in alternatives(r.ret)}
 
 
+def helper_only_appends(ctx, cal, argi, depth=0):
+    """does the crate fn `cal` use its parameter #argi (a `&mut` buffer) only through append-like calls"""
+    if depth > 3 or argi >= len(cal.arg_locals()):
+        return False
+    r = ctx.run(cal.name)
+    pname = P(cal.local_name(cal.arg_locals()[argi]) or '_%d' % cal.arg_locals()[argi])
+    for _, c in r.call_sites():
+        for i, a in enumerate(c['args']):
+            if base_strip(a) == pname:
+                m = method(c['t'])
+                if m in BUF_APPEND and i == 0:
+                    continue
+                if c['t'].get('local') and callee_of(c['t']) in ctx.facts.bodies and helper_only_appends(ctx, ctx.facts.bodies[callee_of(c['t'])], i, depth + 1):
+                    continue
+                return False
+    return True
+
+
 @rule('C01-APPEND', 'the per-thread buffer a collect task returns only ever receives appends')
 def c01_append(ctx):
     out = RuleOut('C01-APPEND')
@@ -613,6 +637,8 @@ def c01_append(ctx):
                 n += 1
                 key = 'C01-APPEND/%s/%s' % (key_of(b), m)
                 ok = m in BUF_APPEND
+                if not ok and c['t'].get('local') and callee_of(c['t']) in F.bodies:
+                    ok = helper_only_appends(ctx, F.bodies[callee_of(c['t'])], 0)
                 out.inst(key, ok, m, sample={'task': key_of(b), 'buffer_call': m})
                 if not ok:
                     out.fail(key, '%s calls `%s` on the buffer it returns: thread-local order (pull order x in-chunk order) is no longer guaranteed' % (key_of(b), m), b.where(c['line']))
@@ -811,6 +837,33 @@ def lib_type(ty):
     return ty.startswith(LIB_PREFIXES)
 
 
+def merge_key_types(ctx, name, which=None, depth=0):
+    """concrete types bound to the merge's key type parameter, followed through generic callers (a wrapper that
+    forwards its own `Key`)"""
+    out = set()
+    if depth > 4:
+        return {'?'}
+    tb = ctx.facts.bodies.get(name)
+    if which is None:
+        which = 1
+    for cb in ctx.facts.fn_bodies():
+        for _, t in cb.calls():
+            if callee_of(t) == name:
+                targs = t.get('targs', [])
+                if len(targs) <= which:
+                    out.add('?')
+                    continue
+                ty = targs[which]
+                root = ctx.facts.root_of(cb)
+                gens = root.d.get('type_params', [])
+                if ty in gens:
+                    sub = merge_key_types(ctx, root.name, gens.index(ty), depth + 1)
+                    out |= sub if sub else {ty}     # no crate caller fixes it: caller-chosen key, not resolvable
+                else:
+                    out.add(ty)
+    return out
+
+
 class MergeView:
     """the pieces of a k-way merge body, found semantically (not by position)"""
 
@@ -827,6 +880,14 @@ class MergeView:
         op = [l for l in b.arg_locals() if b.locals[l]['ty'].startswith('&mut ')]
         self.V = P(b.local_name(vp[0])) if vp else None
         self.OUT = P(b.local_name(op[0])) if op else None
+        # alternatively the output is a sink closure `push: impl FnMut(Out)` supplied by crate-internal wrappers
+        self.SINK = None
+        if self.OUT is None:
+            fbs = b.fn_bounds()
+            for l in b.arg_locals():
+                tp = local_type_param(b, l)
+                if tp in fbs and len(fbs[tp]['by_ref']) == 1 and not fbs[tp]['by_ref'][0] and fbs[tp]['output'] in ('()', ''):
+                    self.SINK = P(b.local_name(l))
         self.reads = [(bb, c) for bb, c in self.calls.items() if (is_own_prim(res(c['t']), c['t']) or '').startswith('ptr::read')]
         self.set_lens = [(bb, c) for bb, c in self.calls.items() if is_own_prim(res(c['t']), c['t']) == 'set_len']
         # `chain.for_each(|v| v.set_len(0))`: the reset of each element of the chain happens at the for_each call
@@ -869,7 +930,7 @@ def merge_checks(ctx, b, out, prefix):
     def good(tag, note, sample=None):
         out.inst('%s/%s' % (k, tag), True, note, sample=sample)
 
-    if mv.V is None or mv.OUT is None or len(mv.reads) != 1 or mv.L is None or mv.CUR is None:
+    if mv.V is None or (mv.OUT is None and mv.SINK is None) or len(mv.reads) != 1 or mv.L is None or mv.CUR is None:
         bad('shape', 'not recognisable as a k-way merge (vectors param %s, output param %s, %d raw reads, main loop %s)' % (mv.V, mv.OUT, len(mv.reads), mv.L), kind='undecided')
         return mv
     v = mv.v
@@ -923,7 +984,12 @@ def merge_checks(ctx, b, out, prefix):
     elif ok_read:
         good('M3-read', 'offset = pre-increment indices[v]', sample={'merge': key_of(b), 'read': t_str(rarg)[:200]})
     # ---- M4: the value read is pushed to the output, unconditionally, once
-    pushes = [(bb, c) for bb, c in mv.calls.items() if mv.in_loop(bb) and method(c['t']) == 'push' and c['nargs'] and mv.base(c['nargs'][0]) == mv.OUT]
+    if mv.OUT is not None:
+        pushes = [(bb, c) for bb, c in mv.calls.items() if mv.in_loop(bb) and method(c['t']) == 'push' and c['nargs'] and mv.base(c['nargs'][0]) == mv.OUT]
+    else:
+        pushes = [(bb, dict(c, nargs=[c['nargs'][0], c['nargs'][1][1][0] if c['nargs'][1][0] == 'tuple' and len(c['nargs'][1][1]) == 1 else None]))
+                  for bb, c in mv.calls.items() if mv.in_loop(bb) and c['decl'] in ('std::ops::Fn::call', 'std::ops::FnMut::call_mut', 'std::ops::FnOnce::call_once')
+                  and c['nargs'] and c['nargs'][0] == mv.SINK and len(c['nargs']) > 1]
     want = ('field', rc['res'] if rc['res'][0] != 'set' else rc['res'], None, 1)
     want = I.normalize(want)
     if len(pushes) != 1:
@@ -950,6 +1016,9 @@ def merge_checks(ctx, b, out, prefix):
                 okvec = vec_t[0] == 'call' and method_of_term(vec_t) in ('index', 'index_mut') and vec_t[2][1] == v and mv.base(vec_t[2][0]) == mv.V
                 okidx = idx_t[0] == 'call' and method_of_term(idx_t) == 'index' and idx_t[2][1] == v and idx_t[2][0][0] == 'mut' and \
                     idx_t[2][0][1] == Iphi and idx_t[2][0][2][0] == 'call' and method_of_term(idx_t[2][0][2]) == 'index_mut' and idx_t[2][0][2][2][1] == v
+                # or the very value that was stored as the new index: indices[v](before) + 1
+                if not okidx and Iphi is not None:
+                    okidx = idx_t == ('bin', 'Add', ('call', 'std::ops::Index::index', (Iphi, v)), ('const', 1))
                 okk = okvec and okidx
         if not okn:
             bad('M2-node', 'the node re-inserted into the queue is %s, not the popped vector index' % t_str(node)[:120], c['line'])
@@ -986,7 +1055,14 @@ def merge_checks(ctx, b, out, prefix):
                 why = 'the enumeration is not over `vectors`: %s' % t_str(root)[:80]
             else:
                 e = I.elem(node[1])
-                if keyt[0] == 'field' and keyt[3] == 0 and keyt[1][0] == 'field' and keyt[1][2] == 1 and keyt[1][1][0] == 'call' and method_of_term(keyt[1][1]) == 'get':
+                if keyt[0] == 'field' and keyt[3] == 0 and keyt[1][0] == 'field' and keyt[1][2] == 1 and keyt[1][1][0] == 'call' and method_of_term(keyt[1][1]) == 'first' \
+                        and base_strip(keyt[1][1][2][0]) == e:
+                    # vec.first(): correct because every index starts at 0
+                    zeros = [x for x in idx_bases if x is not None and x[0] == 'call' and method_of_term(x) == 'from_elem' and x[2][0] == ('const', 0)]
+                    ok = bool(zeros)
+                    if not ok:
+                        why = 'the initial key is the first element of each vector but the indices do not start at 0'
+                elif keyt[0] == 'field' and keyt[3] == 0 and keyt[1][0] == 'field' and keyt[1][2] == 1 and keyt[1][1][0] == 'call' and method_of_term(keyt[1][1]) == 'get':
                     g = keyt[1][1]
                     vec_t, idx_t = g[2]
                     if base_strip(vec_t) == e and idx_t[0] == 'call' and method_of_term(idx_t) == 'index' and idx_t[2][1] == node:
@@ -1005,15 +1081,7 @@ def merge_checks(ctx, b, out, prefix):
     qt = [b.locals[l]['ty'] for l in mv.queue_locals]
     if not qt:
         bad('M6-queue', 'no DaryHeap queue local found', kind='undecided')
-    key_tys = set()
-    for cb in ctx.facts.fn_bodies():
-        for _, t in cb.calls():
-            if callee_of(t) == b.name:
-                # the generic argument bound to `Key`
-                full = t.get('callee_full', '')
-                targs = t.get('targs', [])
-                if len(targs) >= 2:
-                    key_tys.add(targs[1])
+    key_tys = merge_key_types(ctx, b.name)
     badk = [x for x in key_tys if x not in ('usize', '(usize, usize)')]
     if badk:
         bad('M6-key', 'the merge is instantiated with key type %s; only usize / (usize, usize) (lexicographic = source order) are known to order correctly' % badk, kind='undecided')
@@ -1022,30 +1090,157 @@ def merge_checks(ctx, b, out, prefix):
     return mv
 
 
+def internal_closure_literals(ctx, b, tparam):
+    """if every call of the (non-public-API) fn b binds its closure-typed parameter `tparam` to a closure literal of
+    this crate: the names of those closure bodies; None when some caller forwards something else (user code)"""
+    tps = b.d.get('type_params', [])
+    if tparam not in tps:
+        return None
+    i = tps.index(tparam)
+    lits = set()
+    ncall = 0
+    for cb in ctx.facts.fn_bodies():
+        for _, t in cb.calls():
+            if callee_of(t) == b.name:
+                ncall += 1
+                targs = t.get('targs', [])
+                if i >= len(targs) or not targs[i].startswith('{closure@'):
+                    return None
+                # the literal is one of the caller's closures: match by type string
+                cands = [x for x in ctx.facts.closures_in(ctx.facts.root_of(cb)) if closure_type_matches(x, targs[i])]
+                if len(cands) != 1:
+                    return None
+                lits.add(cands[0].name)
+    if not ncall or b.name in ctx.slots.par_methods:
+        return None
+    return sorted(lits)
+
+
+def closure_type_matches(cb, tystr):
+    # `{closure@src/core/map_fil_col.rs:80:29: 80:36}` starts at the closure's file:line
+    import re
+    m = re.match(r'\{closure@([^:]+):(\d+):', tystr)
+    return bool(m) and cb.d.get('file', '').endswith(m.group(1)) and cb.d.get('line') == int(m.group(2))
+
+
+def sink_closure_target(ctx, host_b, host_r, clo):
+    """for a sink closure literal `|value| out.push(value)` built in host_b: the host term that receives the
+    pushes (its only call is one unconditional push of its own argument onto a captured `&mut` place), else None"""
+    if clo is None or clo[0] != 'closure':
+        return None
+    cb = ctx.facts.bodies.get(clo[1])
+    if cb is None or len(cb.arg_locals()) != 2:
+        return None
+    rc = ctx.run(cb.name)
+    cs = list(rc.call_sites())
+    if len(cs) != 1:
+        return None
+    bb, c = cs[0]
+    cfg = ctx.cfg(cb)
+    if method(c['t']) != 'push' or len(c['args']) != 2 or cfg.innermost_loop(bb) is not None or not all(cfg.dominates(bb, x) for x in cfg.returns):
+        return None
+    vl = cb.arg_locals()[1]
+    if c['args'][1] != P(cb.local_name(vl) or '_%d' % vl):
+        return None
+    tgt = c['args'][0]
+    caps = cb.d.get('captures', [])
+    if tgt[0] != 'param' or not tgt[1].startswith('cap:'):
+        return None
+    cn = tgt[1][4:]
+    if cn not in caps or caps.index(cn) >= len(clo[2]):
+        return None
+    return clo[2][caps.index(cn)]
+
+
+def merge_entries(ctx):
+    """name -> (merge fn, how) for the merge functions themselves and for loop-free wrappers
+    `fn w(vectors, output) { merge(vectors, |v| output.push(v)) }` / `{ merge(vectors, output) }`:
+    how(r, c) gives (vectors term, output term) of a call record c of that entry in the caller's terms"""
+    key = 'merge_entries'
+    if key in ctx.cache:
+        return ctx.cache[key]
+    F = ctx.facts
+    ms = merge_functions(ctx)
+    ent = {}
+    for mn in ms:
+        mb = F.bodies[mn]
+        mv = MergeView(ctx, mb)
+        names = [P(mb.local_name(l) or '_%d' % l) for l in mb.arg_locals()]
+        vi = names.index(mv.V) if mv.V in names else None
+        oi = names.index(mv.OUT) if mv.OUT in names else None
+        si = names.index(mv.SINK) if mv.SINK in names else None
+        ent[mn] = {'merge': mn, 'v': vi, 'o': oi, 's': si, 'wrapper': None}
+    for b in F.fn_bodies():
+        if b.is_closure() or b.name in ms:
+            continue
+        cl = [(bb, t) for bb, t in b.calls() if callee_of(t) in ms]
+        if len(cl) != 1 or ctx.cfg(b).loops():
+            continue
+        r = ctx.run(b.name)
+        c = r.calls.get(cl[0][0])
+        if c is None:
+            continue
+        e = ent[callee_of(cl[0][1])]
+        names = [P(b.local_name(l) or '_%d' % l) for l in b.arg_locals()]
+        if e['v'] is None or e['v'] >= len(c['args']) or c['args'][e['v']] not in names:
+            continue
+        if e['o'] is not None:
+            o = base_of(r, c['args'][e['o']])
+        elif e['s'] is not None:
+            o = sink_closure_target(ctx, b, r, c['args'][e['s']])
+            o = base_of(r, o) if o is not None else None
+        else:
+            o = None
+        if o not in names:
+            continue
+        # nothing else in the wrapper touches vectors or output
+        others = [cc for bb2, cc in r.call_sites() if bb2 != cl[0][0] and any(base_of(r, a) in (c['args'][e['v']], o) for a in cc['args'])]
+        if others:
+            continue
+        ent[b.name] = {'merge': e['merge'], 'v': names.index(c['args'][e['v']]), 'o': names.index(o), 's': None, 'wrapper': b.name}
+    ctx.cache[key] = ent
+    return ent
+
+
 @rule('C01-MERGE', 'def-use facts M1-M6 of the k-way merge of per-thread (key, value) vectors')
 def c01_merge(ctx):
     out = RuleOut('C01-MERGE')
     F = ctx.facts
     ms = merge_functions(ctx)
+    ents = merge_entries(ctx)
     for mn in sorted(ms):
         merge_checks(ctx, F.bodies[mn], out, 'C01-MERGE')
     # the merge functions are what receives the runner result on the ordered path
     n_use = 0
-    for pn in ctx.slots.par_entries:
-        b = F.bodies[pn]
+    for b in F.fn_bodies():
+        if b.is_closure() or b.name in ents or not any(callee_of(t) in ents for _, t in b.calls()):
+            continue
+        pn = b.name
         r = ctx.run(pn)
         for _, c in r.call_sites():
-            if callee_of(c['t']) in ms:
+            if callee_of(c['t']) in ents:
+                e = ents[callee_of(c['t'])]
                 n_use += 1
-                runs = [cc for _, cc in r.call_sites() if callee_of(cc['t']) in ctx.slots.runner_entries]
-                ok = len(runs) == 1 and c['args'][0] == runs[0]['res']
+                # the vectors are the runner's result as returned: by a runner call in this body, or by a loop-free
+                # helper (inlined by the analysis) that returns it unchanged
+                vt = c['args'][e['v']] if e['v'] is not None and e['v'] < len(c['args']) else None
+                ok = vt is not None and vt[0] == 'call' and sg(vt[1]) in {sg(x) for x in ctx.slots.runner_entries}
+                if not ok and vt is not None and vt[0] == 'call' and vt[2] and vt[2][0][0] == 'closure':
+                    # a loop-free runner entry is inlined: its value is thread::scope(<its scope closure>)
+                    ok = vt[2][0][1] in set(ctx.slots.scope_closures.values()) and len(vt[2]) == 1
                 outp = [P(b.local_name(l)) for l in b.arg_locals() if b.locals[l]['ty'].startswith('&mut ')]
-                ok2 = len(c['args']) > 1 and base_of(r, c['args'][1]) in outp
+                if e['o'] is not None:
+                    tgt = c['args'][e['o']] if e['o'] < len(c['args']) else None
+                elif e['s'] is not None:
+                    tgt = sink_closure_target(ctx, b, r, c['args'][e['s']]) if e['s'] < len(c['args']) else None
+                else:
+                    tgt = None
+                ok2 = tgt is not None and base_of(r, tgt) in outp
                 out.inst('C01-MERGE/use/%s' % key_of(b), ok and ok2, 'merge(run_map(..), output)', sample={'par_entry': key_of(b), 'merged': t_str(c['args'][0])[:100]})
                 if not ok:
                     out.fail('C01-MERGE/use/%s' % key_of(b), '%s does not hand the runner\'s per-thread vectors, as returned, to the merge: %s' % (key_of(b), t_str(c['args'][0])[:160]), b.where(c['line']))
                 elif not ok2:
-                    out.fail('C01-MERGE/use/%s/target' % key_of(b), '%s merges into %s, not into its output parameter' % (key_of(b), t_str(c['args'][1])[:100]), b.where(c['line']))
+                    out.fail('C01-MERGE/use/%s/target' % key_of(b), '%s merges into %s, not into its output parameter' % (key_of(b), t_str(tgt)[:100]), b.where(c['line']))
     out.floor('merge_functions', len(ms), 1 if not ctx.fixture else 0)
     out.floor('merge_uses', n_use, 2 if not ctx.fixture else 0)
     return out
@@ -1173,6 +1368,29 @@ def c14_window(ctx):
             kk = '%s/%s' % (k, method(t))
             u = is_user_closure_call(t, b)
             if u:
+                lits = internal_closure_literals(ctx, b, u)
+                if lits is not None:
+                    # the parameter only ever receives closure literals written in this crate: their bodies are part of the window
+                    for cbn in lits:
+                        cbd = F.bodies[cbn]
+                        for bb2, t2 in cbd.calls():
+                            if t2.get('exp'):
+                                continue
+                            n += 1
+                            p2 = res(t2)
+                            kk2 = '%s/%s/%s' % (k, key_of(cbd), method(t2))
+                            sh2 = t2.get('self_head', '')
+                            if is_user_closure_call(t2, cbd) or t2.get('local'):
+                                ok2 = False
+                            elif t2.get('resolved') is None and sh2.startswith(('param:', 'ref:param:')):
+                                ok2 = t2.get('trait', '').startswith(LIB_PREFIXES)
+                            else:
+                                ok2 = p2.startswith(LIB_PREFIXES) or p2.startswith('<')
+                            out.inst(kk2, ok2, 'call inside the crate closure bound to %s' % u, sample={'merge': key_of(b), 'closure': key_of(cbd), 'callee_in_window': p2})
+                            if not ok2:
+                                out.fail(kk2, '%s runs %s (through the closure %s bound to %s) inside the double-drop window: cannot establish that no user code runs there'
+                                         % (key_of(b), p2, key_of(cbd), u), cbd.where(t2.get('line')), kind='undecided')
+                    continue
                 out.inst(kk, False, 'user closure call')
                 out.fail(kk, '%s calls the user closure %s inside the window where moved-out elements are still owned by the source vectors: a panic there drops them twice' % (key_of(b), u), b.where(t.get('line')))
                 continue
@@ -1198,7 +1416,7 @@ def c14_window(ctx):
             badt = [x for x in tys if not lib_type(x) and not x[:1].isupper()]
             # single capital identifiers are the callers' own type parameters (Out, O, P, G): element / growth types chosen by the user;
             # their code (Drop, PartialOrd) is not invoked in the window except through the Key, which M6 restricts
-        keyt = inst.get(1, set())
+        keyt = merge_key_types(ctx, mn)
         okk = all(x in ('usize', '(usize, usize)') for x in keyt)
         out.inst(k + '/key-types', okk, str(sorted(keyt)))
         if not okk:
